@@ -558,6 +558,7 @@ RULES = [
     ("X-LEXEMS", "every lexem but an empty quoted string reaches the grammar (a blank string is a value) [shared]", lambda ctx: __import__("extra2").lexems_are_kept(ctx)),
     ("C02-R3", "every documented operator spelling denotes its operator (Op::from evaluated on all spellings x letter cases) [shared with C02]", lambda ctx: __import__("c02").r3(ctx)),
     ("X-LEXCLASS", "lexer character classes, context flags, token ends and quoted-literal ends [shared]", lambda ctx: __import__("extra").lexer_classes(ctx)),
+    ("X-MEMOKEY", "a memo kept in self is keyed by every parameter its stored value is computed from [shared]", lambda ctx: __import__("extra2").memo_key_complete(ctx)),
 ]
 
 EXPLANATION = (
